@@ -84,7 +84,9 @@ def setup(B, mode):
     if mode == "length":
         length = B.int("length")
     extra = dict(evented=False, eventSource=None, retry=None, leid=None) if CLS() == RESP else {}
-    self = B.obj(CLS(), hint="parsent", msg=msg, body=B.buf(hint="oldbody"), length=length, parms=None, trails=None,
+    # the parser object is reused for every message of a connection: what the PREVIOUS message left in .trails is arbitrary
+    g["old_trails"] = B.uid("Headers", "trailers-of-the-previous-message") if (mode == "chunked" and B.choice(False, True, label="previous-message-had-trailers")) else None
+    self = B.obj(CLS(), hint="parsent", msg=msg, body=B.buf(hint="oldbody"), length=length, parms=None, trails=g["old_trails"],
                  chunked=(mode == "chunked"), **extra)
     return self, msg, length, log
 
@@ -192,6 +194,8 @@ def parse_body_chunked(B):
     B.prove("body-is-the-data-chunks-in-order", body == z(g["acc"]), top=True)
     B.prove("length-is-the-decoded-size-and-bodied", z3.And(z(st["length"], "int") == z3.Length(body), z(st["bodied"])), top=True)
     B.prove("trailers-of-the-last-chunk-kept", True if g["trails"] is None else st["trails"] is g["trails"], top=True)
+    if g["trails"] is None and got and got[-1] == "last":
+        B.prove("a-body-without-trailers-reports-none: not-those-of-the-previous-message", st["trails"] is None, top=True, props=["C17"])
     B.prove("ends-with-yield-True", yields[-1] is True, top=True)
 
 
